@@ -1,0 +1,25 @@
+//go:build verif
+
+package config
+
+import (
+	"sort"
+
+	"github.com/git-lfs/git-lfs/v3/git"
+)
+
+// VerifReadGitConfig exposes readGitConfig to the verification harness: the
+// stored key/value lists, the registered extension names and remote names.
+func VerifReadGitConfig(configs ...*git.ConfigurationSource) (vals map[string][]string, extensions []string, remotes []string) {
+	gf, exts, rem := readGitConfig(configs...)
+	vals = gf.All()
+	for name := range exts {
+		extensions = append(extensions, name)
+	}
+	for name := range rem {
+		remotes = append(remotes, name)
+	}
+	sort.Strings(extensions)
+	sort.Strings(remotes)
+	return
+}
